@@ -140,7 +140,18 @@ def clauses (prop : String) (inst : Instance) (es : List Ev) (outs : List EvOut)
         | .bytes b => (acc.1 + b.length, acc.2)
         | _ => if acc.1 ≥ firstLen then (acc.1, acc.2 ++ [e]) else acc) (0, [])).2
     let lastPublished := (afterUpgrade.filterMap fun | .signal p => if forwardable p then some (sendPacket p) else none | _ => none).getLast?
+    -- every chunk of client bytes ends on a frame boundary: the session is idle whenever a signal is published and
+    -- keeps up, so every published signal is answered with exactly one frame, in order
+    let wholeChunks := (es.foldl (fun (acc : List Nat × Bool) e =>
+        match e with
+        | .bytes b =>
+          let all := acc.1 ++ b
+          let (_, left) := split (all.length + 1) all
+          (all, acc.2 && left.isEmpty)
+        | _ => acc) ([], true)).2
+    let owed := afterUpgrade.filterMap fun | .signal p => if forwardable p then some (sendPacket p) else none | _ => none
     [ ("no_panic", noPanic),
+      ("one_frame_per_signal_when_keeping_up", !(streamsThroughout && wholeChunks) || sigFrames == owed),
       ("lagging_subscriber_is_not_dropped", !endedBySignal),
       ("newest_signal_delivered", !streamsThroughout || lastPublished.isNone || sigFrames.getLast? == lastPublished),
       ("whole_frames", wleft.isEmpty),
